@@ -23,6 +23,7 @@ def specs_for(ctx):
         dict(D=1, target="outside", box="sym", noise="det", cons="half", options=dict(max_fun_evals=40), seed=sd + 5),
         dict(D=2, target="sphere", box="sym", noise="auto", sigma=0.2, cons="band", options=dict(max_fun_evals=60, noise_final_samples=1), seed=sd + 6),
         dict(D=2, target="outside", box="sym", noise="det", cons="tinyball", options=dict(max_fun_evals=70), seed=sd + 7),
+        dict(D=2, target="sphere", box="sym", noise="det", cons="ball", x0="absent", options=dict(max_fun_evals=50), seed=sd + 9),
         dict(D=2, target="outside", box="sym", noise="declared", sigma=0.2, cons="tinyhalf", options=dict(max_fun_evals=70, noise_final_samples=2), seed=sd + 8),
     ]
     return specs
@@ -75,6 +76,14 @@ def infeasible_starts(ctx):
             lb, ub, plb, pub = np.full(D, 0.01), np.full(D, 100.0), np.full(D, 0.1), np.full(D, 10.0)
             t = 10.0 ** rng.uniform(-0.5, 0.5)
             x0 = np.full(D, 1.0); x0[0] = t * (1.0 + off)
+        elif rng.random() < 0.3:
+            # parameters of LARGE magnitude relative to the plausible width (offset-dominated): snapping moves x0 by an amount that is
+            # tiny relative to |x0| but not relative to the mesh
+            c0 = rng.choice([300.0, -4000.0, 1.0e5])
+            lb, ub, plb, pub = np.full(D, c0 - 50.0), np.full(D, c0 + 50.0), np.full(D, c0 - 5.0), np.full(D, c0 + 5.0)
+            t = c0 + rng.uniform(-3.0, 3.0)
+            off = off * 2.5
+            x0 = np.array([c0 + rng.uniform(-2, 2) for _ in range(D)]); x0[0] = t + off
         else:
             lb, ub, plb, pub = np.full(D, -5.0), np.full(D, 5.0), np.full(D, -2.0), np.full(D, 2.0)
             x0 = np.array([rng.uniform(-1, 1) for _ in range(D)]); x0[0] = t + off
@@ -103,6 +112,43 @@ def infeasible_starts(ctx):
     return n, bad[:5]
 
 
+def sequential_constraints(ctx):
+    """Several constrained optimisations IN ONE PROCESS on the same box and start (so that mesh points coincide) with DIFFERENT constraint
+    functions: the verdicts of one run's constraint must never be used for another's.  Returns (n_runs, first violation or None)."""
+    import logging
+    import numpy as np
+    from pybads import BADS
+    logging.disable(logging.CRITICAL)
+    D = 2
+    seq = [("ball r=1.2", lambda X: np.sum(np.atleast_2d(X) ** 2, axis=1) - 1.44),
+           ("ball r=0.8", lambda X: np.sum(np.atleast_2d(X) ** 2, axis=1) - 0.64),
+           ("half-plane (boolean)", lambda X: np.atleast_2d(X)[:, 0] + np.atleast_2d(X)[:, 1] > 0.3),
+           ("ball r=0.6, declared noise", lambda X: np.sum(np.atleast_2d(X) ** 2, axis=1) - 0.36)]
+    bad = None
+    for i, (name, cons) in enumerate(seq):
+        pts = []
+        noisy = "noise" in name
+
+        def fun(x, pts=pts, noisy=noisy):
+            pts.append(np.array(x, dtype=float).reshape(-1).copy())
+            v = float(np.sum((np.asarray(x) - 1.5) ** 2))
+            return v + (0.1 * np.random.randn() if noisy else 0.0)
+        opts = dict(display="off", random_seed=7, max_fun_evals=45)
+        if noisy:
+            opts.update(uncertainty_handling=True, noise_final_samples=2)
+        try:
+            r = BADS(fun, np.array([0.1, 0.1]), np.full(D, -3.0), np.full(D, 3.0), np.full(D, -2.0), np.full(D, 2.0), non_box_cons=cons, options=opts).optimize()
+            pts.append(np.asarray(r["x"], dtype=float).reshape(-1))
+        except Exception as ex:
+            bad = bad or f"run {i} ({name}) raised {type(ex).__name__}: {str(ex)[:80]}"
+            continue
+        viol = [p.tolist() for p in pts if float(np.atleast_1d(cons(p.reshape(1, -1)))[0]) > 0]
+        if viol and bad is None:
+            bad = f"run {i} ({name}) of a sequence of constrained runs in one process evaluated/returned {len(viol)} infeasible point(s), e.g. {viol[0]}"
+    logging.disable(logging.NOTSET)
+    return len(seq), bad
+
+
 def tie(ctx, broken):
     ctx.extra_requires = ["PV.Model.Filter", "PV.Model.SkeletonBox"]
     out = R.tie_skeleton(ctx, broken, [(s, None) for s in specs_for(ctx)], "c02", extra_valid=R.provenance_expr)
@@ -115,6 +161,12 @@ def tie(ctx, broken):
                     dict(kind="construct", cases=bad))
 
 
+    nseq, badseq = sequential_constraints(ctx)
+    ctx.count(nseq, nseq)
+    if not ctx.oblige("sequential_constrained_runs", "correspondence", badseq is None, str(badseq)):
+        ctx.violate("infeasible-evaluated", badseq, dict(kind="sequence"))
+
+
 def search(ctx, broken):
     if R.truncate_search(ctx, R.mon_c02):
         return True
@@ -124,6 +176,10 @@ def search(ctx, broken):
 
 
 def replay(ctx, rp):
+    if rp["replay"].get("kind") == "sequence":
+        n, bad = sequential_constraints(ctx)
+        print("replay sequential constrained runs:", bad or "all feasible")
+        return 1 if bad else 0
     if rp["replay"].get("kind") == "construct":
         n, bad = infeasible_starts(ctx)
         print("replay infeasible starts:", bad or "all rejected")
